@@ -13,9 +13,9 @@ COMMON_NOTE = ('Trusted base: the simulator kernel (virtual clock advancing 1 re
 CHECKS = {
     'C01': ('exploration', 'seeded deterministic simulation: 2-4 real stacks on a simulated bus, delivery-model oracle',
             'Seeded search over swarm-generated multi-stack J1939-21 scenarios (sizes 0..1785 on boundary classes, windows 1..255 per stack, latency policies '
-            'incl. synchronous zero-latency re-entrancy); every run is judged by an exactly-once / byte-identical / nothing-else delivery model and an idle check.', '7 C01'),
+            'incl. synchronous zero-latency re-entrancy; schedule injection: eager wake-ups, submissions nested in the stack\'s own transmissions and callbacks, application calls parked at a source line inside send_pgn); every run is judged by an exactly-once / byte-identical / nothing-else delivery model and an idle check.', '7 C01'),
     'C02': ('exploration', 'seeded deterministic simulation: 2-3 real FD stacks, delivery model + capacity model fed by a bus monitor',
-            'Seeded search over J1939-22 scenarios with up to 8 RTS/CTS + 4 BAM sessions per originator in one or both directions and calls beyond capacity; '
+            'Seeded search over J1939-22 scenarios with up to 8 RTS/CTS + 4 BAM sessions per originator in one or both directions and calls beyond capacity (schedule injection as C01, incl. application calls parked at a source line inside send_pgn); '
             'delivery model, refusal-without-side-effects (bus record and table snapshot before/after), idle/pool check.', '7 C02'),
     'C03': ('exploration', 'deterministic simulation against an independent reference peer (RefPeer/RefCodec), enumerated CTS-window sequences + seeded sampling',
             'One real stack against a conforming peer written from the SAE frame layouts, either role, both data link layers; every CTS-window sequence for 2..6 '
@@ -34,19 +34,19 @@ CHECKS = {
             'the monitor judges every data packet and every CTS on the bus record with virtual timestamps.', '7 C09'),
     'C10': ('exploration', 'seeded deterministic simulation with fault injection over generated histories, capacity model',
             'Histories of 1..40 transfers with clean/lost-frame/peer-abort/peer-silent/no-ack/busy-pair outcomes and overlapping inbound sessions, then the full '
-            'advertised concurrency at once with colliding inbound session numbers; return values, silence of refused calls, delivery of the final batch, pools.', '7 C10'),
+            'advertised concurrency at once with colliding inbound session numbers (J1939-22: optionally held open while inbound sessions with the same numbers time out); return values, silence of refused calls, delivery of the final batch, pools.', '7 C10'),
     'C11': ('exploration', 'seeded deterministic simulation: call sequences vs independent multi-PG decoder on the bus record, virtual-time deadline oracle',
-            'Sequences of 1..12 send_pgn calls (1..60 bytes, time limits 0..200 ms, FEFF/FBFF, app or timer-callback context); every frame decoded independently and '
+            'Sequences of 1..12 send_pgn calls (1..60 bytes, time limits 0..200 ms, FEFF/FBFF, app or timer-callback context; schedule injection: job thread or application call parked at its k-th source line with the other side running at that instant); every frame decoded independently and '
             'matched to the submissions (exactly once, no mixing, legal lengths, padding), each group on the bus within its time limit + Lmax.', '7 C11'),
     'C12': ('exploration', 'seeded deterministic simulation over registration histories, timer model with per-registration cookies',
-            'Histories of up to 12 add_timer/remove_timer/subscribe/unsubscribe operations from application and timer-callback context incl. duplicates and '
-            'self-removal; every call attributed by cookie and compared with the allowed firing windows; no call after removal (logical order).', '7 C12'),
+            'Histories of up to 12 add_timer/remove_timer/subscribe/unsubscribe operations from application and timer-callback context incl. duplicates, '
+            'self-removal, slow callbacks and application calls parked at a source line; every call attributed by cookie and compared with the allowed firing windows; no call after removal (call intervals in logical order).', '7 C12'),
     'C04': ('exploration', 'seeded deterministic simulation: 2-4 real CAs claiming concurrently, claim invariants over final states and the bus record',
-            'NAME orderings, AAC bits, preferred addresses (immediate/veto range), start instants and claim delays on a grid around the 250 ms veto window, '
-            'latency [0,5 ms]; oracle: settled in bounded time, unique addresses at quiescence, lowest NAME keeps, loser announces cannot-claim / re-claims, stability.', '7 C04'),
+            'NAME orderings (unrelated and sibling NAMEs), AAC bits, preferred addresses (immediate/veto range), start instants and claim delays on a grid around the 250 ms veto window, '
+            'latency [0,5 ms]; oracle: settled in bounded time, unique addresses at quiescence, lowest NAME (also the only announcer) keeps, loser announces cannot-claim / re-claims, stability.', '7 C04'),
     'C05': ('exploration', 'seeded deterministic simulation + enumeration of 256 destinations x PDU formats, delivery model per listener',
             'Bystander stack with 0-3 CAs in several claim states and ECU-level listeners (none/int/predicate); single frames to every destination, complete foreign '
-            'RTS/CTS, BAM, FD and multi-PG sessions between two reference nodes, and every can.Message flag combination; oracle: who is called, no transmission, no state.', '7 C05'),
+            'RTS/CTS, BAM, FD and multi-PG sessions between two reference nodes, every can.Message flag combination, and a session whose destination loses its listener mid-transfer; oracle: who is called, no transmission, no state.', '7 C05'),
     'C13': ('exploration', 'seeded deterministic simulation over claim histories x send entry points, bus-record source-address oracle',
             'One CA (AAC or fixed) driven through every claim history by a scripted contender; every send entry point called at random instants; oracle: raises iff '
             'not operational (claim request from 254 excepted), every application frame carries the address held at emission.', '7 C13'),
@@ -58,7 +58,7 @@ CHECKS = {
             'start/stop histories; bus payloads decoded independently; DM22 byte layout.', '7 C16'),
     'C17': ('exploration', 'seeded deterministic simulation with blocking client/server application threads, DM14 memory model',
             'Client and server stacks with MemoryAccess, blocking read/write/respond in simulated application threads, sizes 1..255 bytes, object sizes 1/2/4/8, '
-            'seed/key on/off, several transactions back to back, latency (0,5 ms].', '7 C17'),
+            'seed/key on/off, several transactions with pauses from none to 0.4 s (eager wake-ups), repeated reads of one kept list, latency (0,5 ms]; two open known findings bound to observed races.', '7 C17'),
     'C18': ('exploration', 'seeded deterministic simulation with fault injection (wrong key, refusal, error codes, absent server) over histories',
             'Histories of up to 6 operations mixing successes and failures on the same objects; oracle: no data/app consultation before the right key, failures surface '
             'as exceptions naming the code, timeouts bounded, the next well-formed operation succeeds.', '7 C18'),
